@@ -201,7 +201,12 @@ def decide(case, ctx, c, first):
         if case["kind"] == "wide_approx":
             ctx.count("approx_with_10plus_startpoints")
         before = set(os.listdir(ctx.logdir))
-        ok, got = ctx.call(cg.sat.approx_model_count, c, dict(Aarg))
+        # the sampling set left to the default or given explicitly ("iter of str"), in different iterable forms
+        spform = (ai + want + len(sp)) % 6
+        spl = sorted(sp, reverse=True)
+        kw = {} if spform == 0 else {"startpoints": [None, list, lambda x: (y for y in x), iter, tuple, set][spform](spl)}
+        ctx.count("sampling_set:" + ["default", "list", "generator", "iterator", "tuple", "set"][spform])
+        ok, got = ctx.call(cg.sat.approx_model_count, c, dict(Aarg), **kw)
         new = sorted(f for f in set(os.listdir(ctx.logdir)) - before if f.endswith(".cnf"))
         ctx.count("cmp:approx_handoff")
         if not ok:
@@ -268,5 +273,5 @@ def decide(case, ctx, c, first):
 
 
 def gates(counters, table, tier):
-    need = ["class:shared_parity", "approx_with_10plus_startpoints", "requery_after_set_type", "class:acyclic", "class:pins", "class:cyclic", "class:no_startpoints", "count_zero", "count_pos", "assume:internal", "dimacs_counted", "prob_mid", "cmp:signal_probability", "assumptions_as_int"]
+    need = ["class:shared_parity", "approx_with_10plus_startpoints", "requery_after_set_type", "class:acyclic", "class:pins", "class:cyclic", "class:no_startpoints", "count_zero", "count_pos", "assume:internal", "dimacs_counted", "prob_mid", "cmp:signal_probability", "assumptions_as_int", "sampling_set:generator", "sampling_set:iterator", "sampling_set:default"]
     return [f"{k} seen {counters.get(k, 0)} times" for k in need if counters.get(k, 0) < 3]
